@@ -236,6 +236,9 @@ class Server:
           which becomes available once another thread gathers the result from (another end of) the pipeline.
         """
         self._pipeline_notfull = threading.Condition()
+        # Start with an empty ledger: a request abandoned by its caller and still in the
+        # pipeline when the previous context was exited has left its entry behind.
+        self._uid_to_futures = {}
         _enter_server(self)
         return self
 
@@ -520,6 +523,7 @@ class AsyncServer:
     async def __aenter__(self):
         self._pipeline_notfull = asyncio.Condition()
         self._pipeline_notfull_notifications = {}
+        self._uid_to_futures = {}  # see `Server.__enter__`
         _enter_server(self, (asyncio.get_running_loop(),))
         return self
 
